@@ -123,15 +123,20 @@ def run(R, only_cases=None):
     tmpdir = scratch / "tmp"
     tmpdir.mkdir(parents=True, exist_ok=True)
 
-    def one(chunk):
-        # a private TMPDIR: what is left behind in it can only come from the calls under observation
+    def one(arg):
+        k, chunk = arg
+        # a TMPDIR private to THIS worker: what is left behind in it can only come from the calls under observation
+        # (tempfile.gettempdir() itself creates and removes a probe file on first use: with a directory shared between
+        # the parallel workers one worker's probe file showed up in another worker's listing)
+        mytmp = tmpdir / f"w{k}"
+        mytmp.mkdir(parents=True, exist_ok=True)
         p = C.run_impl("impl_io.py", input_obj={"mode": "inert", "cases": [{"canary_dir": str(scratch / "cm"), "scratch": str(scratch)}] + chunk}, timeout=1200,
-                       extra_env={"TMPDIR": str(tmpdir)})
+                       extra_env={"TMPDIR": str(mytmp)})
         if p.returncode != 0:
             raise RuntimeError("inert runner failed: " + p.stderr.decode(errors="replace")[-1500:])
         return json.loads(p.stdout)
     with ThreadPoolExecutor(shards) as ex:
-        outs = list(ex.map(one, chunks))
+        outs = list(ex.map(one, enumerate(chunks)))
     nsteps = 0
     dyn = set()
     for o in outs:
